@@ -412,7 +412,100 @@ def addGridPdf (h : List (K × PyVal) → H) (s : List (H × P)) (d : List (K ×
 def getGridPdf (h : List (K × PyVal) → H) (s : List (H × P)) (d : List (K × PyVal)) : Option P :=
   getPdf h s (normItems d)
 
+/-! ### `PDFSet` with its argument checks -/
+
+inductive PErr | typeError | keyError | valueError
+deriving DecidableEq, Repr
+
+/-- the `gridparams` / `key` argument: a dictionary, an `int` (a key made earlier), anything else -/
+inductive KeyArg (K H : Type) | dict (d : List (K × PyVal)) | key (k : H) | other
+
+/-- the `pdf` argument: a `PDF` instance with its axes (a code), or something else -/
+inductive PdfArg (P : Type) | pdf (p : P) (axes : Nat) | notPdf
+
+/-- `make_dict_hash(d)`: `None` is the empty dictionary, a non-dict raises `TypeError` -/
+def makeDictHash (h : List (K × PyVal) → H) : Option (KeyArg K H) → Except PErr H
+  | none => .ok (gridKey h [])
+  | some (.dict d) => .ok (gridKey h d)
+  | some _ => .error .typeError
+
+/-- `PDFSet.add_pdf(pdf, gridparams)` on `_gridparams_hash_pdf_dict` (values: PDF with its axes) -/
+def addPdfE (h : List (K × PyVal) → H) (s : List (H × (P × Nat))) (pdf : PdfArg P) (g : KeyArg K H) :
+    Except PErr (List (H × (P × Nat))) :=
+  match pdf with
+  | .notPdf => .error .typeError
+  | .pdf p ax => match g with
+      | .dict d =>
+          let k := gridKey h d
+          if (odGet s k).isSome then .error .keyError
+          else match s with
+            | [] => .ok (odSet s k (p, ax))
+            | (_, (_, ax0)) :: _ => if ax = ax0 then .ok (odSet s k (p, ax)) else .error .valueError
+      | _ => .error .typeError
+
+/-- `PDFSet.get_pdf(gridparams)` -/
+def getPdfE (h : List (K × PyVal) → H) (s : List (H × (P × Nat))) : KeyArg K H → Except PErr P
+  | .key k => match odGet s k with | some v => .ok v.1 | none => .error .keyError
+  | .dict d => match odGet s (gridKey h d) with | some v => .ok v.1 | none => .error .keyError
+  | .other => .error .typeError
+
+/-- `key in pdfset` -/
+def containsE (h : List (K × PyVal) → H) (s : List (H × (P × Nat))) : KeyArg K H → Except PErr Bool
+  | .key k => .ok (odGet s k).isSome
+  | .dict d => .ok (odGet s (gridKey h d)).isSome
+  | .other => .error .typeError
+
+/-- `pdfset.pdf_keys` -/
+def pdfKeys (s : List (H × (P × Nat))) : List H := odKeys s
+
 end hash
+
+/-! ## DatasetCollection (`skyllh/core/dataset.py`): datasets keyed by their name, no positional order -/
+
+section dataset
+variable {N : Type} [DecidableEq N]
+
+/-- `d.pop(k)` for a present key / no-op for an absent one -/
+def odErase {V : Type} : List (N × V) → N → List (N × V)
+  | [], _ => []
+  | (k', v') :: t, k => if k' = k then t else (k', v') :: odErase t k
+
+/-- what is handed to `add_datasets`: identity, name, `isinstance(obj, Dataset)` -/
+structure DsObj (N : Type) where
+  id : Nat
+  name : N
+  isDataset : Bool
+
+inductive DsOp (N : Type)
+  | add (ds : List (DsObj N))        -- `add_datasets(d)`, `add_datasets([d1, …])`, `+=`
+  | remove (n : N)                   -- `remove_dataset(name)`
+  | get (n : N)                      -- `get_dataset(name)`, `dc[name]`
+
+/-- the loop of `add_datasets`: every element is checked and stored in turn — what was stored
+before a raising element stays stored -/
+def dsAddEach : List (N × Nat) → List (DsObj N) → List (N × Nat) × Except Err (Option Nat)
+  | s, [] => (s, .ok none)
+  | s, d :: t =>
+      if !d.isDataset then (s, .error .typeError)
+      else if (odGet s d.name).isSome then (s, .error .keyError)
+      else dsAddEach (odSet s d.name d.id) t
+
+def dsStep (s : List (N × Nat)) : DsOp N → List (N × Nat) × Except Err (Option Nat)
+  | .add ds => dsAddEach s ds
+  | .remove n => if (odGet s n).isSome then (odErase s n, .ok none) else (s, .error .keyError)
+  | .get n => match odGet s n with
+      | some i => (s, .ok (some i))
+      | none => (s, .error .keyError)
+
+def dsRun (s : List (N × Nat)) : List (DsOp N) → List (N × Nat)
+  | [] => s
+  | op :: ops => dsRun (dsStep s op).1 ops
+
+end dataset
+
+/-- `dataset_names`: the names in sorted order -/
+def datasetNames {N : Type} [LE N] [DecidableLE N] (s : List (N × Nat)) : List N :=
+  (canon s).map Prod.fst
 
 /-! ## DataFieldStages -/
 
@@ -439,6 +532,28 @@ def andCheckS (stage : Nat) : Stages → Bool
 def orCheckS (stage : Nat) : Stages → Bool
   | .one m => orCheck stage m
   | .many ms => orCheckSeq stage ms
+
+/-- the `stages` argument as Python sees it: an `int` (also `bool`), a sequence / set / array of
+integers, or a scalar that is neither (`numpy.int64(…)`: not an `int`, not iterable → `TypeError`) -/
+inductive StagesArg | int (m : Nat) | iter (ms : List Nat) | scalar
+
+/-- `and_check` / `or_check` with the `TypeError` branch (`none`) -/
+def andCheckE (stage : Nat) : StagesArg → Option Bool
+  | .int m => some (andCheck stage m)
+  | .iter ms => some (andCheckSeq stage ms)
+  | .scalar => none
+
+def orCheckE (stage : Nat) : StagesArg → Option Bool
+  | .int m => some (orCheck stage m)
+  | .iter ms => some (orCheckSeq stage ms)
+  | .scalar => none
+
+/-- `get_joint_names`: the first field evaluates `or_check` and raises for a scalar that is not an
+`int` — unless there is no field at all -/
+def jointNamesE {N : Type} (fields : List (N × Nat)) : StagesArg → Option (List N)
+  | .int m => some ((fields.filter fun f => orCheck f.2 m).map Prod.fst)
+  | .iter ms => some ((fields.filter fun f => orCheckSeq f.2 ms).map Prod.fst)
+  | .scalar => if fields.isEmpty then some [] else none
 
 /-- `DataFields.get_joint_names` -/
 def jointNames {N : Type} (fields : List (N × Nat)) (st : Stages) : List N :=
